@@ -1342,7 +1342,9 @@ func (hv *Hash) privateDetailedType() px.Type {
 		structEntries := make([]*StructElement, top)
 		for idx, entry := range hv.entries {
 			if ks, ok := entry.key.(stringValue); ok {
-				structEntries[idx] = NewStructElement(ks, DefaultAnyType())
+				if len(ks) > 0 {
+					structEntries[idx] = NewStructElement(ks, DefaultAnyType())
+				}
 				continue
 			}
 
